@@ -25,6 +25,8 @@ type c16Sess struct {
 	CLI   *c01Case `json:"cli,omitempty"`
 	Ver   string   `json:"ver,omitempty"` // netconf: what the server offers: 1.0 | 1.1 | both
 	Ops   []ncOp   `json:"ops,omitempty"`
+	// TimeoutMS: operation timeout of the session (0 = 5 s)
+	TimeoutMS int `json:"timeout_ms,omitempty"`
 }
 
 func genC16Sess(r *sim.Rng, c *c16Case) *c16Sess {
@@ -52,6 +54,18 @@ func genC16Sess(r *sim.Rng, c *c16Case) *c16Sess {
 	// the login phase of telnet / system needs to see a prompt: always greet
 	cc.Banner = "Welcome to the device" + cc.EOL + cc.EOL + cc.Prompt + cc.Trail
 	cc.Segs, cc.DefSeg = nil, 0
+	// C01's hypothesis "a read never ends inside an escape sequence" is the simulated transport's
+	// doing; a real transport cuts anywhere (and the channel strips escapes per read), so the device
+	// of these sessions emits none
+	for i, o := range cc.Outs {
+		var keep []string
+		for _, a := range o {
+			if !strings.HasPrefix(a, "\x1b") {
+				keep = append(keep, a)
+			}
+		}
+		cc.Outs[i] = keep
+	}
 	s.CLI = cc
 	return s
 }
@@ -255,7 +269,11 @@ func runC16Session(id string, c *c16Case) {
 		return
 	}
 	// ---- NETCONF
-	ncopts := []util.Option{options.WithReadDelay(20 * time.Microsecond), options.WithTimeoutOps(5 * time.Second)}
+	tmo := 5 * time.Second
+	if s.TimeoutMS > 0 {
+		tmo = time.Duration(s.TimeoutMS) * time.Millisecond
+	}
+	ncopts := []util.Option{options.WithReadDelay(20 * time.Microsecond), options.WithTimeoutOps(tmo)}
 	d, err := netconf.NewDriver("127.0.0.1", append(topts, ncopts...)...)
 	if err != nil {
 		fail("harness-setup", "driver construction failed: %v", err)
@@ -284,6 +302,21 @@ func runC16Session(id string, c *c16Case) {
 	simOuts := c16NCOps(d2, s.Ops)
 	_ = closeNC(d2)
 	cs.Obs = fmt.Sprintf("version=%s/%s replies=%d/%d", realVer, simVer, len(realOuts), len(simOuts))
+	if c.Kind == "system-ssh" {
+		// the pty the system transport gives ssh stays in canonical mode for a subsystem session:
+		// an input line is cut at 4095 bytes by the line discipline
+		for _, rq := range ncSim.Requests {
+			for _, ln := range bytes.Split(rq.Framed, []byte("\n")) {
+				if len(ln) > 4095 {
+					defer func() {
+						if cs.Oracle != "" {
+							cs.Sig = "C16:system-netconf-line-limit"
+						}
+					}()
+				}
+			}
+		}
+	}
 	if realVer != simVer {
 		fail("session-nc-version", "selected version %s over %s, %s over the ideal pipe", realVer, c.Kind, simVer)
 		return
